@@ -244,7 +244,7 @@ fn param_grid(thorough: bool) -> Vec<(&'static str, Params)> {
                 last_n: 1,
                 h1: 5,
                 h_sampled: 30,
-                h_short: 6,
+                h_short: 7,
                 fork_at: 4,
                 fork_tip: 20,
                 seed: 3,
